@@ -10,6 +10,10 @@ import (
 // connection faults at a chosen moment: a reset (RST) towards the client or towards the server on
 // one chosen connection, while the other connections of the same peer stay up. It works below TLS.
 type Proxy struct {
+	// HoldFrom >= 0: connections with that index (in order of arrival) and above are accepted and
+	// then held silent - nothing is forwarded, nothing is answered (a peer that stops mid-handshake)
+	HoldFrom int
+
 	ln     net.Listener
 	target string
 	mu     sync.Mutex
@@ -27,7 +31,7 @@ func StartProxy(target string) (*Proxy, error) {
 	if err != nil {
 		return nil, err
 	}
-	p := &Proxy{ln: ln, target: target}
+	p := &Proxy{ln: ln, target: target, HoldFrom: -1}
 	p.wg.Add(1)
 	go func() {
 		defer p.wg.Done()
@@ -35,6 +39,15 @@ func StartProxy(target string) (*Proxy, error) {
 			c, err := ln.Accept()
 			if err != nil {
 				return
+			}
+			p.mu.Lock()
+			hold := p.HoldFrom >= 0 && len(p.pairs) >= p.HoldFrom
+			p.mu.Unlock()
+			if hold {
+				p.mu.Lock()
+				p.pairs = append(p.pairs, &proxyPair{down: c.(*net.TCPConn)})
+				p.mu.Unlock()
+				continue
 			}
 			up, err := net.Dial("tcp", target)
 			if err != nil {
@@ -58,6 +71,13 @@ func (p *Proxy) pipe(dst, src *net.TCPConn) {
 	_, _ = io.Copy(dst, src)
 	// propagate the end of this direction as a normal close of the write side
 	_ = dst.CloseWrite()
+}
+
+// SetHoldFrom sets HoldFrom (safe while the proxy is running).
+func (p *Proxy) SetHoldFrom(n int) {
+	p.mu.Lock()
+	p.HoldFrom = n
+	p.mu.Unlock()
 }
 
 // Addr returns host:port of the proxy.
@@ -88,7 +108,9 @@ func (p *Proxy) ResetDown(i int) bool {
 	}
 	_ = pp.down.SetLinger(0)
 	_ = pp.down.Close()
-	_ = pp.up.Close()
+	if pp.up != nil {
+		_ = pp.up.Close()
+	}
 	return true
 }
 
@@ -99,8 +121,10 @@ func (p *Proxy) ResetUp(i int) bool {
 	if pp == nil {
 		return false
 	}
-	_ = pp.up.SetLinger(0)
-	_ = pp.up.Close()
+	if pp.up != nil {
+		_ = pp.up.SetLinger(0)
+		_ = pp.up.Close()
+	}
 	_ = pp.down.Close()
 	return true
 }
@@ -111,7 +135,9 @@ func (p *Proxy) Close() {
 	p.mu.Lock()
 	for _, pp := range p.pairs {
 		_ = pp.down.Close()
-		_ = pp.up.Close()
+		if pp.up != nil {
+			_ = pp.up.Close()
+		}
 	}
 	p.mu.Unlock()
 	p.wg.Wait()
